@@ -18,7 +18,7 @@ def run(ctx):
     ctx.do(SH.rule_ax1, [SH.CORE, H.HYP], scope=ctx.scope(ENTRIES))
     ctx.do(SI.rule_ref1)
     ctx.do(SI.rule_mean1, [SI.HYP], scope=ctx.scope(ENTRIES))
-    ctx.do(SH.rule_sh5, only={"Subspace._data_with_dual", "Subspace.spacelike_complement"})
+    ctx.do(SH.rule_sh5, only={"Subspace._data_with_dual", "Subspace.spacelike_complement", "Subspace.reflection_across", "Isometry.fixed_point_pair", "Isometry.fixed_point", "Isometry.axis", "Hyperplane.from_reflection", "Geodesic.from_reflection"})
     ctx.do(u1, ENTRIES, min_functions=15)
     ctx.r.assume("involutivity, fixed sets and the ordering of fixed points "
                  "are numerical and not decided")
